@@ -117,6 +117,12 @@ func (srv *Server) ServeDNS(w dns.ResponseWriter, r *dns.Msg) {
 }
 
 func (srv *Server) handleRequest(wkr *mgr.WorkerCtx, w dns.ResponseWriter, r *dns.Msg) {
+	// Ignore requests without a question.
+	// Truncated requests may be unpacked without a question section.
+	if len(r.Question) == 0 {
+		srv.replyMsg(wkr, w, new(dns.Msg).SetRcode(r, dns.RcodeFormatError))
+		return
+	}
 	q := r.Question[0]
 	queryName := strings.ToLower(q.Name)
 
@@ -285,7 +291,7 @@ func (srv *Server) replyMsg(wkr *mgr.WorkerCtx, w dns.ResponseWriter, reply *dns
 	if err != nil {
 		wkr.Error(
 			"failed to set write deadline for dns response",
-			"name", reply.Question[0].Name,
+			"name", firstQuestionName(reply),
 			"rcode", reply.Rcode,
 			"err", err,
 		)
@@ -296,9 +302,17 @@ func (srv *Server) replyMsg(wkr *mgr.WorkerCtx, w dns.ResponseWriter, reply *dns
 	if err != nil {
 		wkr.Error(
 			"failed to write dns response",
-			"name", reply.Question[0].Name,
+			"name", firstQuestionName(reply),
 			"rcode", reply.Rcode,
 			"err", err,
 		)
 	}
+}
+
+// firstQuestionName returns the name of the first question of the message, if any.
+func firstQuestionName(msg *dns.Msg) string {
+	if len(msg.Question) == 0 {
+		return ""
+	}
+	return msg.Question[0].Name
 }
